@@ -121,6 +121,18 @@ func (c *Ctx) Fail(kind, format string, a ...any) {
 	c.fail = &Failure{Kind: kind, Detail: fmt.Sprintf(format, a...)}
 }
 
+// ClearFail drops the recorded failure (used when a failure belongs to a
+// different property than the one the running check decides).
+func (c *Ctx) ClearFail() { c.fail = nil }
+
+// FailKind returns the kind of the recorded failure ("" if none).
+func (c *Ctx) FailKind() string {
+	if c.fail == nil {
+		return ""
+	}
+	return c.fail.Kind
+}
+
 // Failed reports whether the execution already failed.
 func (c *Ctx) Failed() bool { return c.fail != nil }
 
